@@ -175,6 +175,18 @@ CHECKS = {
              "never change the other side's battery, and objects reached through the copy must belong to it. The lazily built default registry must answer like an explicit one.",
         note="Round-trip equality is judged on content, not with == (unpickled objects belong to the application registry by design). Unit ** Quantity and in-place operators on Units are not operations and are skipped.",
         design="5/C18"),
+    "C19": dict(
+        technique="Hypothesis over constructor forms x unit pairs x values/errors over 60 decades (oracle: the numbers supplied and the slope from an independent definition reader); Hypothesis expression trees over independent and repeated measurements against an own first-order propagation model (partial derivatives per source variable); notation and format round-trips",
+        text="Every constructor form (Quantity pair incl. the error given in another unit, numbers+unit, ufloat+unit, plus_minus absolute/relative/Quantity) must report "
+             "value/error/rel as supplied and negative errors must raise ValueError. to/ito over all compatible pairs and the temperature units must map the nominal "
+             "value like a plain quantity and multiply the standard deviation by |slope| (rel unchanged for multiplicative pairs); a converted measurement stays "
+             "correlated with its source. Expression trees over + - * / ** neg on three independent measurements (each also available re-expressed in another unit), "
+             "a plain quantity and numbers are evaluated by pint and by a model that tracks the partial derivative with respect to each source; nominal value, "
+             "dimension and standard deviation must agree (1e-7 of the uncancelled contributions), dimension mismatches must raise. All +/- and a(b) notations x sign "
+             "x exponent must parse to the measurement built from the same numbers; all format specs must render without altering the object, plain-text ones parse back "
+             "within the printed precision. Sampling only.",
+        note="First-order propagation is the contract of the uncertainties package; higher-order effects are outside the model. Format round-trips are judged at the printed precision (1-2 significant digits of the uncertainty).",
+        design="5/C19"),
     "C20": dict(
         technique="complete enumeration of an independently curated table of ~260 standard values x spellings x {Fraction, float} registries (differential oracle: the table)",
         text="Each entry of data/standards.txt (SI and binary prefixes, SI units, defining constants, yard/pound multiples, US/imperial capacity, avoirdupois/"
